@@ -23,7 +23,8 @@ CONTEXTS = ('return', 'assign', 'if', 'ifelse', 'tryfinally', 'tryexcept', 'with
             'arg_of_call', 'nested_arg_of_call', 'lambda_arg_of_call', 'nested2', 'result_attr')
 NESTED_CONTEXTS = ('nested', 'lambda', 'nested_arg_of_call', 'lambda_arg_of_call', 'nested2')
 ROUTES = ('global', 'closure', 'attr1', 'attr2', 'method', 'param', 'partial')
-TAINTS_ANY = ('rebind', 'augassign', 'delrebind', 'fortarget', 'withas', 'walrus', 'starunpack', 'nonlocal')
+TAINTS_ANY = ('rebind', 'augassign', 'delrebind', 'fortarget', 'withas', 'walrus', 'starunpack', 'nonlocal',
+              'importas', 'fromimportas', 'defname', 'classname', 'matchcapture', 'matchstar')
 TAINTS_VK = ('methodcall', 'itemstore', 'handover')
 
 
@@ -92,6 +93,20 @@ def taint_stmts(prog):
         return ['*%s, = ()' % name] if which == 'va' else ['%s, *_ = ({},)' % name]
     if kind == 'nonlocal':
         return ['def taint_():', '    nonlocal %s' % name, '    %s = %s' % (name, empty), 'taint_()']
+    if kind == 'importas':
+        return ['import types as %s' % name, '%s = %s' % (name, empty)]
+    if kind == 'fromimportas':
+        return ['from types import SimpleNamespace as %s' % name, '%s = %s' % (name, empty)]
+    if kind == 'defname':
+        return ['def %s():' % name, '    pass', '%s = %s' % (name, empty)]
+    if kind == 'classname':
+        return ['class %s(object):' % name, '    pass', '%s = %s' % (name, empty)]
+    if kind == 'matchcapture':
+        return ['match %s:' % empty, '    case %s:' % name, '        pass']
+    if kind == 'matchstar':
+        if which == 'va':
+            return ['match [1, 2]:', '    case [_, *%s]:' % name, '        %s = ()' % name]
+        return ['match {"k_": 1}:', '    case {"k_": _, **%s}:' % name, '        %s = {}' % name]
     if kind == 'methodcall':
         return ["%s.pop('q', None)" % name]
     if kind == 'itemstore':
